@@ -3,6 +3,7 @@
   Model: `Snmp.Trap`.
 -/
 import Snmp.Model.Trap
+import Snmp.Gen.Facts
 import Snmp.Lemmas.TrapWireLemmas
 import Snmp.Props.C06
 namespace Snmp.Props.C19
@@ -127,5 +128,11 @@ theorem C19_from_wire_foreign (e : Ber.Enc) (m : Ops.RespMsg) (cls : String) (h 
         cases Ops.forcePdu m.pdu <;> simp [hc]
       · simp [h1, h0]
   · rfl
+
+
+/-- the per-datagram decoder of `register_trap_callback` creates its message-processing model and its
+    local configuration inside the closure and declares nothing `nonlocal` (shape of the code,
+    generated) — why the listener is a `filterMap` of a stateless decision -/
+theorem C19_stateless_shape : Snmp.Gen.trapDecoderStateless = true := by decide
 
 end Snmp.Props.C19
